@@ -87,7 +87,7 @@ func (g *Geometry) MarshalBSONValue() (bsontype.Type, []byte, error) {
 	// implementing MarshalBSONValue allows us to marshal into a null value
 	// needed to match behavior with the JSON marshalling.
 
-	if g.Coordinates == nil && len(g.Geometries) == 0 {
+	if g == nil || (g.Coordinates == nil && len(g.Geometries) == 0) {
 		return bsontype.Null, nil, nil
 	}
 
